@@ -162,6 +162,7 @@ func (m *multi) DeserializeCellBlocks(msg proto.Message, b []byte) (uint32, erro
 	mr := msg.(*pb.MultiResponse)
 
 	var nread uint32
+	seen := make([]bool, len(m.calls))
 	for _, rar := range mr.GetRegionActionResult() {
 		if e := rar.GetException(); e != nil {
 			if l := len(rar.GetResultOrException()); l != 0 {
@@ -182,11 +183,18 @@ func (m *multi) DeserializeCellBlocks(msg proto.Message, b []byte) (uint32, erro
 				return 0, errors.New("no result or exception for action in multi response")
 			} else if r != nil && e != nil {
 				return 0, errors.New("got result and exception for action in multi response")
-			} else if e != nil {
+			}
+			if int64(i) > int64(len(m.calls)) || m.calls[i-1] == nil {
+				return 0, fmt.Errorf("unexpected index %d for result in multi response", i)
+			} else if seen[i-1] {
+				return 0, fmt.Errorf("duplicate index %d for result in multi response", i)
+			}
+			seen[i-1] = true
+			if e != nil {
 				continue
 			}
 
-			c := m.get(i)                     // TODO: maybe return error if it's out-of-bounds
+			c := m.get(i)
 			d := c.(canDeserializeCellBlocks) // let it panic, because then it's our bug
 
 			response := c.NewResponse()
@@ -227,20 +235,30 @@ func (m *multi) returnResults(msg proto.Message, err error) {
 
 	mr := msg.(*pb.MultiResponse)
 
-	// Here we can assume that everything has been deserialized correctly.
+	// Here we can assume that everything has been deserialized correctly
+	// (DeserializeCellBlocks has checked the action indices). answered tracks
+	// the calls that got their result, so that a response that leaves out
+	// actions does not leave their callers waiting.
+	answered := make([]bool, len(m.calls))
+
 	// Dispatch results to appropriate calls.
 	for i, rar := range mr.GetRegionActionResult() {
 		if e := rar.GetException(); e != nil {
 			// Got an exception for the whole region,
 			// fail all the calls for that region.
+			if i >= len(m.regions) {
+				// more region results than regions in the request
+				continue
+			}
 			reg := m.regions[i]
 
 			err := exceptionToError(*e.Name, string(e.Value))
-			for _, c := range m.calls {
-				if c == nil {
+			for j, c := range m.calls {
+				if c == nil || answered[j] {
 					continue
 				}
 				if c.Region() == reg {
+					answered[j] = true
 					c.ResultChan() <- hrpc.RPCResult{Error: err}
 				}
 			}
@@ -253,6 +271,11 @@ func (m *multi) returnResults(msg proto.Message, err error) {
 			r := roe.GetResult()
 
 			c := m.get(i)
+			if answered[i-1] {
+				// its region has also reported an exception
+				continue
+			}
+			answered[i-1] = true
 
 			// TODO: don't bother if the call's context has already expired
 
@@ -274,6 +297,13 @@ func (m *multi) returnResults(msg proto.Message, err error) {
 			}
 
 			c.ResultChan() <- hrpc.RPCResult{Msg: response}
+		}
+	}
+
+	for j, c := range m.calls {
+		if c != nil && !answered[j] {
+			c.ResultChan() <- hrpc.RPCResult{Error: RetryableError{
+				errors.New("no result for action in multi response")}}
 		}
 	}
 }
